@@ -338,6 +338,16 @@ def directed():
     out.append(("ts1-trailing-junk", "x.s1p", "# GHz S RI R 50\n1 0.1 0.2\n2 0.3 0.4\nabc\n"))
     out.append(("ts1-descending", "x.s1p", "# GHz S RI R 50\n2 0.1 0.2\n1 0.3 0.4\n"))
     out.append(("ts1-bad-last-line", "x.s1p", "# GHz S RI R 50\n1 0.1 0.2\n2 0.3 0.4 0.5"))
+    # a sweep that starts at DC: frequency 0 is legal (only negative frequencies are invalid), in every framing
+    out.append(("ts1-dc-start-1port", "x.s1p", "# GHz S RI R 50\n0 0.1 0.2\n1 0.3 0.4\n"))
+    out.append(("ts1-dc-start-2port", "x.s2p", "# kHz S RI R 50\n0 0.1 0.2 0.3 0.4 0.5 0.6 0.7 0.8\n2.5 0.1 0.2 0.3 0.4 0.5 0.6 0.7 0.8\n"))
+    out.append(("ts1-dc-start-3port", "x.s3p", "# Hz S RI R 50\n0.0 1 2 3 4 5 6\n7 8 9 10 11 12\n13 14 15 16 17 18\n"))
+    out.append(("ts1-dc-start-4port", "x.s4p", "# MHz S RI R 50\n0e0 1 2 3 4 5 6 7 8\n1 2 3 4 5 6 7 8\n1 2 3 4 5 6 7 8\n1 2 3 4 5 6 7 8\n"
+                                                "1 1 2 3 4 5 6 7 8\n1 2 3 4 5 6 7 8\n1 2 3 4 5 6 7 8\n1 2 3 4 5 6 7 8\n"))
+    out.append(("ts1-dc-only", "x.s1p", "# THz Z MA R 75\n-0 0.1 0.2\n"))
+    out.append(("ts2-dc-start", "x.ts", "[Version] 2.0\n# GHz S RI R 50\n[Number of Ports] 1\n[Number of Frequencies] 2\n"
+                                         "[Network Data]\n0 0.1 0.2\n1 0.3 0.4\n[End]\n"))
+    out.append(("npd-dc-start", "x.npd", "#:ports 1\n#:frequencies 2\n#:parameters Sri\n0 0.1 0.2\n1e9 0.3 0.4\n"))
     out.append(("ts1-negative-r", "x.s1p", "# GHz Z RI R -50\n1 0.1 0.2\n"))
     out.append(("ts1-zero-r", "x.s1p", "# GHz Y RI R 0\n1 0.1 0.2\n"))
     out.append(("ts2-negative-reference", "x.ts",
@@ -471,6 +481,7 @@ def model_ties(ctx, inputs, results):
     (tie:npd_scanner_model) on the long-token inputs and on a sample of the mutated ones."""
     M = tstone_ties.models(ctx)
     quick = ctx.tier == "quick"
+    ctx.log("C09(data): %d inputs through the loaders; comparing with the extracted models" % len(inputs))
     tstone_ties.tie_loads(ctx, M, [(cid, name, text) for cid, kind, lab, name, text in inputs], results, "mutations",
                           timeout=600 if quick else 2400)
     ts = [(cid, text) for cid, kind, lab, name, text in inputs if T.is_touchstone_name(name)]
@@ -485,3 +496,4 @@ def model_ties(ctx, inputs, results):
     tstone_ties.tie_tokens(ctx, M, lt, "long-tokens", flagsets=(0, 1, 2))
     tstone_ties.tie_tokens(ctx, M, rest[:nts], "mutations", pick=lambda cid: flagsets[sum(map(ord, cid)) % len(flagsets)])
     tstone_ties.tie_npd_scan(ctx, M, npd[:nnpd], "mutations")
+    ctx.log("C09(data): model ties done")
